@@ -108,8 +108,8 @@ def handle (req : Sexp) : Sexp :=
       let b ← getBox depthFuel b
       -- hypothesis of the composition theorem, and the same without the "no running inline box" conjunct
       let noRun : Ty → Attrs → List Box → List Box → Bool := fun ty a kids cols =>
-        rawOK ty a (kids.map fun c => c.setA { c.a with running := false }) cols
-      some (ok [ofBool (allW rawOK b), ofBool (allW noRun b), ofBool (isBlockLevel b.ty && !b.a.running)])
+        pt_rawOK ty a (kids.map fun c => c.setA { c.a with running := false }) cols
+      some (ok [ofBool (allW pt_rawOK b), ofBool (allW noRun b), ofBool (isBlockLevel b.ty && !b.a.running)])
     | .list [.atom "intattr", p, m] => do
       some (ok [ofNat (intAttr (← optInt p) (← m.asNat?))])
     | _ => none
